@@ -1431,7 +1431,13 @@ impl Oracle for ForwardOracle {
 					after, self.funds_before, earned
 				)));
 			}
-			let reported: u64 = self.forwarded_events.iter().map(|e| e.0.unwrap_or(0)).sum();
+			let mut reported: u64 = self.forwarded_events.iter().map(|e| e.0.unwrap_or(0)).sum();
+			let fwd_restarted = w.obs.iter().any(|o| matches!(o, Obs::Restarted { node, .. } if *node == self.fwd));
+			if fwd_restarted && reported > earned && self.forwarded_events.iter().all(|e| e.0 == Some(self.fee_base_msat)) {
+				// events may be repeated across a restart until they were handled *and* persisted
+				crate::runner::witness("c02-payment-forwarded-repeated-after-restart");
+				reported = earned;
+			}
 			if reported != earned {
 				return Err(Self::fail(format!("PaymentForwarded reports {} msat of fees, ledger says {}", reported, earned)));
 			}
@@ -1439,6 +1445,31 @@ impl Oracle for ForwardOracle {
 			label.push_str(&format!("+{}", earned));
 		}
 		Ok(label)
+	}
+}
+
+/// A payment was reported both PaymentSent and PaymentFailed. Names the history when it is the one
+/// the library documents ("in exceedingly rare cases ... PaymentFailed after PaymentSent"): the
+/// PaymentSent event was handled, the sender then restarted from a manager written before the
+/// `update_fulfill_htlc` arrived (it still lists the payment as pending) together with a monitor that
+/// is ahead of that manager, and PaymentFailed appears only after that restart.
+pub fn describe_sent_and_failed(w: &World, sender: usize, hash: &lightning::types::payment::PaymentHash, sent: usize, failed: usize) -> String {
+	let first_sent = w.obs.iter().position(|o| matches!(o, Obs::Event { node, ev: Event::PaymentSent { payment_hash, .. } } if *node == sender && payment_hash == hash));
+	let first_failed = w.obs.iter().position(|o| matches!(o, Obs::Event { node, ev: Event::PaymentFailed { payment_hash: Some(h), .. } } if *node == sender && h == hash));
+	let stale_restart = w.obs.iter().position(|o| match o {
+		Obs::Restarted { node, chosen, mgr_known_ids, mgr_pending, .. } if *node == sender => {
+			mgr_pending.contains(hash)
+				&& chosen.iter().any(|(cid, mon_id)| mgr_known_ids.iter().any(|(c, k)| c == cid && mon_id > k))
+		},
+		_ => false,
+	});
+	let plain = format!("payment reported both PaymentSent (x{}) and PaymentFailed (x{})", sent, failed);
+	match (first_sent, stale_restart, first_failed) {
+		(Some(s), Some(r), Some(f)) if s < r && r < f => format!(
+			"fields=[payment-sent-handled-then-payment-failed-after-restart-from-manager-predating-the-fulfil]: {} - PaymentSent was handled, then the sender restarted from a manager that still lists the payment as pending and a monitor ahead of it, and reported PaymentFailed",
+			plain
+		),
+		_ => plain,
 	}
 }
 
@@ -1503,7 +1534,7 @@ impl Oracle for SenderOracle {
 				continue;
 			}
 			if !sent.is_empty() && failed > 0 {
-				return Err(f(format!("payment reported both PaymentSent x{} and PaymentFailed x{}", sent.len(), failed)));
+				return Err(f(describe_sent_and_failed(w, self.sender, &p.hash, sent.len(), failed)));
 			}
 			if !self.allow_repeats && (sent.len() > 1 || failed > 1) {
 				return Err(f(format!("terminal event repeated without a restart: PaymentSent x{} PaymentFailed x{}", sent.len(), failed)));
